@@ -1,0 +1,49 @@
+//go:build verif
+
+package client
+
+import (
+	"time"
+
+	"github.com/jcmturner/gokrb5/v8/messages"
+	"github.com/jcmturner/gokrb5/v8/types"
+)
+
+// VerifCachedEntry exposes the service ticket cache entry held for an SPN, without the validity-time
+// filter and renewal of GetCachedTicket (build tag verif only).
+func (cl *Client) VerifCachedEntry(spn string) (CacheEntry, bool) {
+	return cl.cache.getEntry(spn)
+}
+
+// VerifCachedSPNs lists the SPNs of the service ticket cache (build tag verif only).
+func (cl *Client) VerifCachedSPNs() []string {
+	cl.cache.mux.RLock()
+	defer cl.cache.mux.RUnlock()
+	var s []string
+	for k := range cl.cache.Entries {
+		s = append(s, k)
+	}
+	return s
+}
+
+// VerifSessionRealms lists the realms a TGT session is held for (build tag verif only).
+func (cl *Client) VerifSessionRealms() []string {
+	cl.sessions.mux.RLock()
+	defer cl.sessions.mux.RUnlock()
+	var s []string
+	for k := range cl.sessions.Entries {
+		s = append(s, k)
+	}
+	return s
+}
+
+// VerifSession exposes the TGT session held for a realm (build tag verif only).
+func (cl *Client) VerifSession(realm string) (tgt messages.Ticket, key types.EncryptionKey, authTime, endTime, renewTill time.Time, ok bool) {
+	s, ok := cl.sessions.get(realm)
+	if !ok {
+		return
+	}
+	s.mux.RLock()
+	defer s.mux.RUnlock()
+	return s.tgt, s.sessionKey, s.authTime, s.endTime, s.renewTill, true
+}
